@@ -132,7 +132,17 @@ def outcome_scan(spec, mp) -> tuple:
     kw = {"exclude_external_libraries": False} if spec.get("include_external") else {}
     with Project(root, files, dirs) as pr:
         sub = rp(spec["module_path"]) if spec["module_path"] else ""
-        res = scan_outcome(pr.path(), pr.path(sub) if sub else pr.path(), **kw)
+        if spec.get("relative_paths"):
+            # root_path and module_path given relative to the working directory
+            import os
+            cwd = os.getcwd()
+            try:
+                os.chdir(pr.base)
+                res = scan_outcome(root, root + ("/" + sub if sub else ""), **kw)
+            finally:
+                os.chdir(cwd)
+        else:
+            res = scan_outcome(pr.path(), pr.path(sub) if sub else pr.path(), **kw)
     if res[0] != "ok":
         return ("error", res[1].split(":")[0])
     nodes, imps, hier = res[1]
@@ -259,11 +269,13 @@ def cases(draw):
     typ = draw(st.sampled_from(["rule", "rule", "layer", "labels", "scan"]))
     if typ == "scan":
         tree = draw(PS.project_trees(root="T0", names=TOKENS[1:8], max_depth=3, with_noise=False))
-        tree = draw(PS.with_imports(tree, max_imports=10))
+        # targets outside the scanned root as well: top-level names and dotted names made of tokens that the renamings map too
+        tree = draw(PS.with_imports(tree, max_imports=10, extra_targets=["T8", "T9.T10", "T10", "T11.T8", "T9"]))
         dirs = tree["dirs"]
         tree["module_path"] = draw(st.sampled_from(dirs)) if dirs else ""
         tree["include_external"] = draw(st.booleans())
-        rho1, rho2 = draw(renamings(TOKENS[:8]))
+        tree["relative_paths"] = draw(st.integers(0, 2)) == 0
+        rho1, rho2 = draw(renamings(TOKENS[:12]))
         return dict(tree, type="scan", rho1=rho1, rho2=rho2)
     tree = draw(RS.trees(root="T0", max_modules=10, siblings=TOKENS[1:7]))
     rho1, rho2 = draw(renamings(TOKENS[:7]))
